@@ -16,6 +16,11 @@ MINIMAL_MUTEZ_PER_BYTE = 1
 MINIMAL_MUTEZ_PER_GAS_UNIT = 0.1
 
 
+def signature_size(content: Dict[str, Any]) -> int:
+    """Size of the signature of the operation's source key (BLS signatures of tz4 accounts take 96 bytes)."""
+    return 96 if str(content.get('source', '')).startswith('tz4') else 64
+
+
 def calculate_fee(
     content: Dict[str, Any],
     consumed_gas: int,
@@ -49,7 +54,8 @@ def default_fee(
     return calculate_fee(
         content=content,
         consumed_gas=gas_limit if gas_limit is not None else default_gas_limit(content),
-        extra_size=32 + 64 + 3 * 3,  # branch, signature, fee:gas_limit:storage_limit mutez values (+3 bytes)
+        # branch, signature, fee:gas_limit:storage_limit mutez values (+3 bytes)
+        extra_size=32 + signature_size(content) + 3 * 3,
         minimal_nanotez_per_gas_unit=minimal_nanotez_per_gas_unit,
     )
 
